@@ -5,10 +5,11 @@ import itertools
 
 from vlib import env
 import tables
-from checks.common import t_oblig, bounded_part, want, contract_sources
+from checks.common import make_replay, t_oblig, bounded_part, want, contract_sources
 from pysym.harness import run_cases
 
 LEVEL = 'proof'
+replay = make_replay('C12')
 FINISH = dict(
     rule='P/T: one obligation per path of the real function (all paths enumerated) or per table key; '
          'B: spellings / molecules with stereo elements, non-trivial = has at least one stereo element',
